@@ -24,8 +24,8 @@ CODES = ['1;96', '36', '1;94', '95', '2;35', '93', '1;33', '35', '1;37', '1;92',
 
 def plan(tier, seed):
     if tier == 'quick':
-        return [{'n': 45} for _ in range(16)]
-    return [{'n': 350} for _ in range(64)]
+        return [{'n': 45} for _ in range(14)] + [{'mode': 'proc', 'n': 3} for _ in range(2)]
+    return [{'n': 350} for _ in range(56)] + [{'mode': 'proc', 'n': 40} for _ in range(8)]
 
 
 def matcher_texts(rng, st):
@@ -201,7 +201,62 @@ def paste_back(ctx, script, rng):
             return
 
 
+def run_proc(ctx, spec):
+    """real processes: `main.py --color -l FILE` vs `main.py -C -l FILE` with the same commands typed at the prompt (stdin);
+    stripped coloured stdout/stderr must equal the plain ones"""
+    import os
+    import subprocess
+    import tempfile
+    env.setup()
+    cands = wlxml.shipped(env.REPO)
+    rng = ctx.rng
+    d = tempfile.mkdtemp(prefix='verif-c17-')
+    try:
+        for i in range(spec['n']):
+            k = rng.choice([1, 2])
+            st = streams.build(rng, cands, k=k, n_each=(15, 60), tagged=(k > 1), opts={'thresh': 0.1})
+            lines = [e['line'] for e in st['entries']]
+            for _ in range(rng.randint(0, 4)):
+                lines.insert(rng.randrange(len(lines) + 1), rng.choice(['hello world', '', 'libEGL warning: x', 'żółć']))
+            lines = break_lines(rng, lines)
+            cmds = [c for c in gen_commands(rng, st, rng.randint(3, 8)) if c.strip() not in ('q', 'quit', 'r', 'resume', 'wlresume', 'qu', 're') and '\x1b' not in c]
+            ms = matcher_texts(rng, st)
+            opts = []
+            if rng.random() < 0.5:
+                f = rng.choice(ms)
+                if f not in ('*', '!'):
+                    opts += ['-f', f]
+            fn = os.path.join(d, 'in.log')
+            open(fn, 'w', encoding='utf-8').write('\n'.join(lines) + '\n')
+            stdin = ('\n'.join(cmds) + '\nquit\n').encode('utf-8')
+            e2 = {k2: v for k2, v in os.environ.items() if not k2.startswith('LC_') and k2 != 'LANG'}
+            e2['LC_ALL'] = 'C.UTF-8'
+            outs = {}
+            for flag in ('-C', '--color'):
+                r = subprocess.run(['/venv/bin/python', os.path.join(env.REPO, 'main.py'), flag] + opts + ['-l', fn], input=stdin, stdout=subprocess.PIPE, stderr=subprocess.PIPE, timeout=300, env=e2)
+                outs[flag] = (r.returncode, r.stdout.decode('utf-8', 'replace'), r.stderr.decode('utf-8', 'replace'))
+                ctx.count('processes')
+            ctx.ev()
+            case = {'script': {'lines': lines, 'after': cmds, 'hooks': {}, 'filter': opts[1] if opts else None, 'stop': None, 'show_unprocessed': True}, 'process': True}
+            p, c = outs['-C'], outs['--color']
+            if '\x1b' in p[1] or '\x1b' in p[2]:
+                ctx.violation('escape-when-off', 'main.py -C wrote an escape sequence', case)
+            elif (p[0], p[1], p[2]) != (c[0], outline.strip_sgr(c[1]), outline.strip_sgr(c[2])):
+                a, b = p[1].split('\n'), outline.strip_sgr(c[1]).split('\n')
+                j = next((j for j in range(min(len(a), len(b))) if a[j] != b[j]), min(len(a), len(b)))
+                ctx.violation('colour-changes-text', 'process: stdout line %d plain %r vs stripped coloured %r (exit %d / %d; stderr equal: %r)' % (
+                    j, a[j:j + 1], b[j:j + 1], p[0], c[0], p[2] == outline.strip_sgr(c[2])), case)
+            elif '\x1b' in c[1]:
+                ctx.sig(['proc', h64(case)])
+                ctx.count('sessions_with_colour')
+    finally:
+        import shutil
+        shutil.rmtree(d, ignore_errors=True)
+
+
 def run(ctx, spec):
+    if spec.get('mode') == 'proc':
+        return run_proc(ctx, spec)
     env.setup()
     cands = wlxml.shipped(env.REPO)
     rng = ctx.rng
